@@ -3,10 +3,10 @@ CONSTANTS
  Conns = {1, 2}
  Keys = {"a", "b"}
  Sizes = {1, 4}
- MaxLogs = 3
- MaxBytes = 7
+ MaxLogs = 2
+ MaxBytes = 6
  MaxRecs = 5
- MaxAdv = 2
+ MaxAdv = 1
  MaxRefused = 1
 INVARIANTS Conservation OrderPerConnKey RightChannel NoEmptyBatch NothingLeftAfterClose Bounded PipesOk
 PROPERTY FreshAfterFlush
